@@ -21,6 +21,8 @@ type Case struct {
 	Defect string    `json:"defect,omitempty"`
 	Reps   int       `json:"reps"`
 	Feat   string    `json:"feat,omitempty"` // feature configuration of the compile: "" all enabled, "none", "some"
+	// Mutations: kinds of the structural mutations that were applied to the (formerly valid) set
+	Mutations []string `json:"mutations,omitempty"`
 }
 
 var defects = []string{"import-cycle", "import-self", "include-cycle", "typedef-cycle-used", "typedef-cycle-unused", "typedef-self",
@@ -294,6 +296,8 @@ func genCase(t *rapid.T) Case {
 	if g.Chance(2, 5, "defect") {
 		c.Defect = defects[g.Pick(len(defects), "which")]
 		inject(c.Mods, c.Defect, func(n int) int { return g.Pick(n, "where") })
+	} else if g.Chance(1, 2, "mutate") {
+		c.Mutations = mutate(c.Mods, func(n int, l string) int { return g.Pick(n, l) })
 	}
 	return c
 }
@@ -310,6 +314,10 @@ func checkCase(c Case) fw.Outcome {
 	out.NonTrivial = len(mods) >= 2 || cross
 	if c.Defect != "" {
 		out.Labels = append(out.Labels, "defect:"+c.Defect)
+		out.NonTrivial = true
+	}
+	if len(c.Mutations) > 0 {
+		out.Labels = append(out.Labels, c.Mutations...)
 		out.NonTrivial = true
 	}
 	names := make([]string, len(mods))
@@ -361,6 +369,11 @@ func checkCase(c Case) fw.Outcome {
 			return out
 		}
 		if res.ParseErr {
+			if len(c.Mutations) > 0 {
+				// the property is about parsed modules: a mutated set that does not parse is not in its domain
+				out.Skip = true
+				return out
+			}
 			out.Violation = fmt.Sprintf("harness: generated module does not parse: %v\n%s", res.Err, out.Key)
 			return out
 		}
@@ -392,7 +405,7 @@ func checkCase(c Case) fw.Outcome {
 	if mustReject && firstOK {
 		out.Violation = fmt.Sprintf("a module set with an injected %s compiles without error\nmodules:\n%s", c.Defect, out.Key)
 	}
-	if c.Defect == "" && !firstOK {
+	if c.Defect == "" && len(c.Mutations) == 0 && !firstOK {
 		out.Labels = append(out.Labels, "generator-invalid")
 		if os.Getenv("VERIF_DEBUG") != "" {
 			d := firstDesc
@@ -421,7 +434,7 @@ var det = fw.Register(&fw.Prop[Case]{
 		"reference cycle (imports, includes, typedefs used/unused/self/through a union, groupings direct/nested/through choice/long/unused, identities, features) or dangling reference; each set is " +
 		"parsed afresh and compiled 4 (quick) / 8 (thorough) times with rotated and reversed supply orders and shared/separate interners (Go re-randomises every map iteration); " +
 		"oracle: returns without panic or hang, an injected cycle or dangling reference gives an error, all runs agree on the verdict and on the canonical dump; " +
-		"non-trivial = at least 2 modules, a cross-module reference, or an injected defect",
+		"a third of the sets get 1-3 structural mutations instead (key / unique / type / restriction / default / min-max / config / status / if-feature / when / must of a node changed, a sibling duplicated, a node kind changed, an augment, refine, uses, deviation, import, typedef type or identity base added or redirected - every argument stays lexically valid, so the set still parses): whatever the set then is, the compile must end with a schema or an error, the same on every run; non-trivial = at least 2 modules, a cross-module reference, an injected defect or a mutation",
 	Gen: genCase, Check: checkCase,
 	MinLabel: []string{"compiles", "rejected"},
 })
